@@ -55,6 +55,16 @@ Section InvL.
   Proof. unfold Inverse.pinv. now rewrite keqb_refl. Qed.
   Lemma pinv_regular k : k <> k0 -> pinv k = kinv k.
   Proof. intros H. unfold Inverse.pinv. destruct (keqb k k0) eqn:E; [apply keqb_eq in E; contradiction|reflexivity]. Qed.
+  (* no cut-off: a non-zero entry, however small, is inverted - where(d != 0, 1/d, 0) is zero exactly at
+     the zeros of d *)
+  Lemma pinv_nonzero k : k <> k0 -> pinv k <> k0.
+  Proof. intros H. rewrite pinv_regular by exact H. now apply kinv_nonzero. Qed.
+  Lemma pinv_zero_iff k : pinv k = k0 <-> k = k0.
+  Proof.
+    split; [|intros ->; apply pinv_zero]. intros E.
+    destruct (keqb k k0) eqn:Ek; [now apply keqb_eq|]. apply keqb_false in Ek.
+    exfalso. exact (pinv_nonzero k Ek E).
+  Qed.
   (* where(d != 0, 1/d, 0) * d: 0 on zeros, 1 elsewhere *)
   Lemma pinv_mul k : kmul (pinv k) k = if keqb k k0 then k0 else k1.
   Proof.
